@@ -9,6 +9,7 @@ import (
 	"encoding/json"
 	"fmt"
 	"math/big"
+	"strings"
 	"sync"
 	"time"
 
@@ -25,23 +26,36 @@ import (
 )
 
 type protoRun struct {
-	Proto    string // ecdsa-keygen | ecdsa-signing | ecdsa-resharing | eddsa-keygen | eddsa-signing | eddsa-resharing
-	Key      keyChoice
-	Keys     []H   `json:",omitempty"` // keygen: party keys (drawn order)
-	Members  []int `json:",omitempty"` // signing: signers; resharing: participating old members (party indices, drawn order)
-	Msg      H     `json:",omitempty"`
-	NewKeys  []H   `json:",omitempty"` // resharing: new committee party keys
-	NewT     int   `json:",omitempty"`
-	Proofs   bool  `json:",omitempty"` // ECDSA resharing: mod/fac proofs on (production path)
-	BadXi    []int `json:",omitempty"` // positions in Members whose party runs with a wrong secret share (Xi+1)
-	WeakPre  []int `json:",omitempty"` // ECDSA keygen / resharing: sorted party indices (new-committee indices) that bring under-sized parameters
-	WeakBits int   `json:",omitempty"`
-	GenPre   []int `json:",omitempty"` // ECDSA keygen / resharing: sorted (new-committee) indices whose party gets no pre-parameters: the library generates them
+	Proto     string // ecdsa-keygen | ecdsa-signing | ecdsa-resharing | eddsa-keygen | eddsa-signing | eddsa-resharing
+	Key       keyChoice
+	Keys      []H   `json:",omitempty"` // keygen: party keys (drawn order)
+	Members   []int `json:",omitempty"` // signing: signers; resharing: participating old members (party indices, drawn order)
+	Msg       H     `json:",omitempty"`
+	NewKeys   []H   `json:",omitempty"` // resharing: new committee party keys
+	NewT      int   `json:",omitempty"`
+	Proofs    bool  `json:",omitempty"` // ECDSA resharing: mod/fac proofs on (production path)
+	BadXi     []int `json:",omitempty"` // positions in Members whose party runs with a wrong secret share (Xi+1)
+	WeakPre   []int `json:",omitempty"` // ECDSA keygen / resharing: sorted party indices (new-committee indices) that bring under-sized parameters
+	WeakBits  int   `json:",omitempty"`
+	ShortSSID bool  `json:",omitempty"` // dealer keys, signing / resharing: search the dealer seed for a session id with a leading zero byte
+	GenPre    []int `json:",omitempty"` // ECDSA keygen / resharing: sorted (new-committee) indices whose party gets no pre-parameters: the library generates them
 }
 
 func (p protoRun) edd() bool { return p.Proto[:5] == "eddsa" }
 
 func (p protoRun) String() string {
+	if p.ShortSSID {
+		q := p
+		q.ShortSSID = false
+		kb, _ := json.Marshal(q)
+		shortSeedMu.Lock()
+		sd := shortSeeds[string(kb)]
+		shortSeedMu.Unlock()
+		if sd == "" {
+			return q.String()
+		}
+		return q.String() + " ssid<32B"
+	}
 	switch p.Proto {
 	case "ecdsa-keygen", "eddsa-keygen":
 		return fmt.Sprintf("%s n=%d t=%d keys=%s", p.Proto, p.Key.N, p.Key.T, p.Key.Pattern)
@@ -126,7 +140,67 @@ func ecSecrets(k *eckeygen.LocalPartySaveData) [][]byte {
 	return s
 }
 
+var shortSeedMu sync.Mutex
+var shortSeeds = map[string]string{}
+
+// withShortSSID: for dealer keys, the dealer seed is searched so that the session id of this run has a leading
+// zero byte (signing: the harness reproduces the id; resharing: the id is read off the first old member's
+// round-1 message, where it travels in clear). Not found / not applicable: the run is returned unchanged.
+func (p protoRun) withShortSSID() protoRun {
+	p.ShortSSID = false
+	if p.Key.Src != "dealer" || p.Proto == "ecdsa-keygen" || p.Proto == "eddsa-keygen" || p.Proto == "eddsa-resharing" {
+		return p // key generation ids depend on the party keys only; EdDSA resharing has no session id
+	}
+	kb, _ := json.Marshal(p)
+	shortSeedMu.Lock()
+	if sd, ok := shortSeeds[string(kb)]; ok {
+		shortSeedMu.Unlock()
+		if sd != "" {
+			p.Key.Seed = sd
+		}
+		return p
+	}
+	shortSeedMu.Unlock()
+	found := ""
+	for i := 0; i < 3000 && found == ""; i++ {
+		q := p
+		q.Key.Seed = fmt.Sprintf("%s~%d", p.Key.Seed, i)
+		var ssid []byte
+		switch p.Proto {
+		case "ecdsa-signing":
+			ssid = ecSigningSSID(dealKeys(false, q.Key.N, q.Key.T, q.Key.Pattern, q.Key.Seed).EC, q.Members)
+		case "eddsa-signing":
+			ssid = edSigningSSID(dealKeys(true, q.Key.N, q.Key.T, q.Key.Pattern, q.Key.Seed).ED, q.Members)
+		default:
+			x := q.build()
+			x.net.Start(0)
+			for _, e := range x.net.Emits {
+				if strings.HasSuffix(e.Type, "DGRound1Message") {
+					ssid = readField(e.Bytes, fieldRef{"ssid", -1})
+				}
+			}
+			if ssid == nil {
+				i = 3000 // no id observable: give up
+				ssid = make([]byte, 32)
+			}
+		}
+		if len(ssid) < 32 {
+			found = q.Key.Seed
+		}
+	}
+	shortSeedMu.Lock()
+	shortSeeds[string(kb)] = found
+	shortSeedMu.Unlock()
+	if found != "" {
+		p.Key.Seed = found
+	}
+	return p
+}
+
 func (p protoRun) build() *runCtx {
+	if p.ShortSSID {
+		p = p.withShortSSID()
+	}
 	x := &runCtx{p: p, t: p.Key.T}
 	x.cv = getCurve("secp256k1")
 	if p.edd() {
@@ -460,6 +534,9 @@ func genProtoRun(t *rapid.T, protos []string) protoRun {
 		}
 		p.NewKeys, p.NewT = genNewCommittee(t, edd, old, maxN)
 		p.Proofs = !edd && rapid.Bool().Draw(t, "proofs")
+	}
+	if p.Key.Src == "dealer" && p.Proto != "ecdsa-keygen" && p.Proto != "eddsa-keygen" && p.Proto != "eddsa-resharing" {
+		p.ShortSSID = rapid.IntRange(0, 3).Draw(t, "shortssid") == 0
 	}
 	return p
 }
